@@ -144,6 +144,9 @@ where
         acc.max_spent = acc.max_spent.max(stats.max_spent as u64);
         acc.conflicting_execs += stats.conflicting_execs;
         acc.timer_fires += stats.timer_fires;
+        if stats.spurious_wakes > 0 {
+            acc.count("spurious_condvar_wakeups_taken", stats.spurious_wakes);
+        }
         last_distinct = stats.distinct_traces.len() as u64;
         if b == Some(0) || b.is_none() {
             // determinism: replaying the default schedule's recorded choices must reproduce
